@@ -282,12 +282,17 @@ pub fn gen_print_history(rng: &mut Rng, avoid: &Avoid) -> History {
     }
     let mut cols: BTreeMap<String, usize> = BTreeMap::new();
     let n = 1 + rng.below(14);
+    let mut last_fmt: Option<UsingFmt> = None;
     for _ in 0..n {
         let dev = *rng.pick(&devs);
         let key = format!("{:?}", dev);
         let mut col = *cols.get(&key).unwrap_or(&0);
         if use_using && rng.chance(1, 3) {
-            let fmt = rand_using(rng);
+            // the same format string is often used by consecutive statements
+            let fmt = match last_fmt.take() {
+                Some(f) if rng.chance(1, 2) => f,
+                _ => rand_using(rng),
+            };
             let nv = 1 + rng.below(fmt.fields.len() * 2);
             let mut items = vec![];
             for i in 0..nv {
@@ -305,8 +310,9 @@ pub fn gen_print_history(rng: &mut Rng, avoid: &Avoid) -> History {
             main.push(ids.st(StmtKind::Print {
                 dev,
                 items,
-                using: Some(fmt.text),
+                using: Some(fmt.text.clone()),
             }));
+            last_fmt = Some(fmt);
         } else {
             let call = if with_fn && dev != Dev::Lpt1 {
                 Some("FP1%")
@@ -794,7 +800,7 @@ fn gen_file_program(rng: &mut Rng, exists: &mut BTreeSet<String>) -> Scenario {
                         name: "R.DAT".into(),
                         mode: Mode::Random,
                         handle: 3,
-                        len: Some(8),
+                        len: Some(*rng.pick(&[8, 8, 10, 12])),
                     }));
                     main.push(ids.st(StmtKind::Field {
                         handle: 3,
